@@ -1,6 +1,6 @@
 SPECIFICATION Spec
-CONSTANTS Procs = {1, 2, 3} Keys = {"a"} MaxOps = 2 Defect = "none"
+CONSTANTS Procs = {1, 2, 3} Keys = {"a", "b"} MaxOps = 2 Defect = "none"
   MapOps = {"store", "load", "delete", "loadanddelete", "len", "clear"}
-  AtomOps = {"getorcreate", "get", "adelete", "aclear", "hadd", "hload"}
+  AtomOps = {}
 INVARIANTS LinOK OneWinner SameHandle NoLostAdd MutualExclusion ImplMatchesAbs
 CHECK_DEADLOCK FALSE
